@@ -381,7 +381,12 @@ impl<C> Inner<C> {
     where
         C: Service<ProtocolMessage, Response = ProtocolMessageAck, Error = DispatcherError<E>>,
     {
-        match self.control.call(pkt).await {
+        let result = self.control.call(pkt).await;
+        // control requests are processed one at a time, wake up dispatcher
+        // so it can release buffered requests
+        self.sink.notify_dispatcher();
+
+        match result {
             Ok(item) => {
                 let packet = match item.result {
                     ProtocolMessageKind::Ping => Some(Encoded::Packet(Packet::PingResponse)),
